@@ -246,6 +246,7 @@ class Inliner:
                     self.helpers[id(node)] = h
         self.defs = defs
         self.module_helpers = {h.node.name: h for h in self.helpers.values() if h.kind == 'module'}
+        self.module_classes = {c.name: c for c in tree.body if isinstance(c, ast.ClassDef)}
         self._fresh = 0
 
     # ------------------------------------------------------------------ resolution of a call to a helper
@@ -257,13 +258,19 @@ class Inliner:
             h = self.module_helpers.get(f.id)
             if h is not None and f.id not in self._host_locals:
                 return h, None
-        elif isinstance(f, ast.Attribute) and isinstance(f.value, ast.Name) and host_cls is not None:
+        elif isinstance(f, ast.Attribute) and isinstance(f.value, ast.Name):
             recv = f.value.id
-            hp = host.args.posonlyargs + host.args.args
-            first = hp[0].arg if hp else None
-            if recv == first and recv in ('self', 'cls') or recv == host_cls.name:
+            if host_cls is not None:
+                hp = host.args.posonlyargs + host.args.args
+                first = hp[0].arg if hp else None
+                if recv == first and recv in ('self', 'cls') or recv == host_cls.name:
+                    for h in self.helpers.values():
+                        if h.kind == 'class' and h.owner is host_cls and h.node.name == f.attr:
+                            return h, f.value
+            # ClassName.new_classmethod(...) / ClassName.new_staticmethod(...) from anywhere in the module
+            if recv in self.module_classes and recv not in self._host_locals:
                 for h in self.helpers.values():
-                    if h.kind == 'class' and h.owner is host_cls and h.node.name == f.attr:
+                    if h.kind == 'class' and h.owner is self.module_classes[recv] and h.node.name == f.attr and (h.static or h.classm):
                         return h, f.value
         return None, None
 
